@@ -1,0 +1,6 @@
+//go:build verif && !race
+// +build verif,!race
+
+package jsonpath
+
+const verifRace = false
